@@ -1,8 +1,185 @@
-import GixModel.Model.C38Core
-import GixModel.Spec.C38
-namespace GixModel.Props.C38
-open GixModel GixModel.C38
+import GixModel.Lemmas.C38Names
+/-
+C38 — Attribute values agree with git check-attr.  PROPERTY THEOREMS ONLY.
 
-theorem placeholder : (1 : Nat) = 1 := rfl
+`C38.resolve` is the model of `gix_worktree::Stack::at_entry(path).matching_attributes(out)` +
+`Outcome::iter{,_selected}` (metadata collection, selection, the `remaining` counter with all its
+early exits, the explicit macro work stack, the three pattern groups info > directory stack >
+globals); `Spec.C38.gitCollect` is the transcription of git's attr.c (attribute stack,
+`determine_macros`, `fill`/`fill_one`/`macroexpand_one`), validated against `git check-attr` by the
+harness. Every theorem holds for ANY path matcher `env.pm` (wildcard matching is property C36).
+-/
+namespace GixModel.Props.C38
+open GixModel GixModel.C38 GixModel.Spec.C38 GixModel.Lemmas.C38
+
+/-- The macro work stack of `Outcome::fill_attributes` always empties within the fuel the model
+gives it — for every collection (cyclic and self-referential macros included), every attribute list
+and every outcome state: each iteration pops one entry, and only the first assignment of a macro
+pushes its body, once. -/
+theorem macro_expansion_terminates (cx : Ctx) (attrs : List Asg) (o : Out) :
+    (fillAttributes cx attrs o).isSome = true :=
+  fillAttributes_isSome cx attrs o
+
+-- non-vacuity: a macro that refers to itself and to a second one that refers back
+example :
+    let cx : Ctx := ⟨⟨[[109], [110], [97]], [([109], [⟨[109], St.set⟩, ⟨[110], St.set⟩]), ([110], [⟨[109], St.set⟩, ⟨[97], St.unset⟩])]⟩, []⟩
+    (fillAttributes cx [⟨[109], St.set⟩] (Out.init cx)).map (fun r => r.1.filled)
+      = some [([97], St.unset), ([110], St.set), ([109], St.set)] := by decide
+
+/-- A whole lookup always returns (no fuel exhaustion anywhere). -/
+theorem resolve_total (env : Env) (t : PTree) (path : Bytes) (isDir icase : Bool) (sel : List Bytes) :
+    (resolveOut env t path isDir icase sel).isSome = true :=
+  groupsLoop_isSome env _ path isDir icase _ _
+
+/-- `remaining` (a `usize`) is never decremented below zero, and it never underestimates the number
+of counted attributes that are still without a value. -/
+theorem remaining_never_underflows (env : Env) (t : PTree) (path : Bytes) (isDir icase : Bool) (sel : List Bytes)
+    (o : Out) (h : resolveOut env t path isDir icase sel = some o) : o.bad = false := by
+  have hm : MacrosOk ⟨collFor t path, sel⟩ := macrosOk_of_collOk _ _ (collFor_ok t path)
+  exact (groupsLoop_inv env _ hm path isDir icase _ _ o h (init_inv _) (collFor_lists t path sel)).2
+
+/-- **resolve_eq_git**: for all attribute files (global files, info/attributes, the `.gitattributes`
+of every directory), every normalised path, directory or not, case folding or not, every selection
+of attributes and every attribute `a` that is reported (all of them when nothing is selected), the
+state gitoxide assigns to `a` — set, unset, a value, or unspecified — is the one git's attr.c
+assigns, for any path matcher. -/
+theorem resolve_eq_git (env : Env) (t : PTree) (path : Bytes) (isDir icase : Bool) (sel : List Bytes) (a : Bytes)
+    (hp : PathOk path) (ha : sel = [] ∨ a ∈ sel) :
+    resolve env t path isDir icase sel a
+      = some (gitValue (gitCollect env t (gitPath path isDir) icase) a) := by
+  unfold resolve
+  have hsome := resolve_total env t path isDir icase sel
+  cases hr : resolveOut env t path isDir icase sel with
+  | none => simp [hr] at hsome
+  | some o =>
+    simp only [Option.map_some, Option.some.injEq]
+    let cx : Ctx := ⟨collFor t path, sel⟩
+    let stack := gitStack t (gitPath path isDir)
+    have hm : MacrosOk cx := macrosOk_of_collOk _ _ (collFor_ok t path)
+    have hmo : ∀ n, (findMacro stack n).getD [] = cx.coll.macroOf n := fun n => macroOf_eq t path isDir n
+    have hmn : ∀ n b, findMacro stack n = some b → n ∈ macroNames stack := fun n b h => findMacro_mem stack n b h
+    have hpsi : psi (macroNames stack) (Out.init cx).filled ≤ (macroNames stack).length :=
+      List.length_filter_le _ _
+    have hsim := groupsLoop_sim env cx (findMacro stack) (macroNames stack) (macroNames stack).length hmo hmn
+      path isDir icase _ _ o hr hpsi
+    have hinv := groupsLoop_inv env cx hm path isDir icase _ _ o hr (init_inv cx) (collFor_lists t path sel)
+    have href : refGroups env (findMacro stack) (macroNames stack).length path isDir icase (Out.init cx).filled
+        [infoGroup t, stackGroup t path, globalsGroup t] = gitCollect env t (gitPath path isDir) icase := by
+      rw [refGroups_eq_fill env _ _ t path isDir icase hp]
+      unfold gitCollect
+      simp only [macroNames_length]
+      rfl
+    rw [href] at hsim
+    apply sim_get cx o _ a hsim hinv
+    by_cases hn : a ∈ cx.coll.names
+    · left
+      unfold counted
+      by_cases hs : cx.sel.isEmpty = true
+      · simp only [hs, if_true]; exact hn
+      · simp only [hs]
+        have ha' : a ∈ cx.sel := by
+          rcases ha with h0 | h1
+          · exact absurd (by show sel.isEmpty = true; rw [h0]; rfl) hs
+          · exact h1
+        exact List.mem_filter.mpr ⟨ha', by simpa using hn⟩
+    · right
+      intro hk
+      apply hn
+      have hki : KnownIn cx.coll.names (gitCollect env t (gitPath path isDir) icase) := by
+        rw [← href]
+        apply refGroups_knownIn cx.coll.names env _ _ _ path isDir icase
+        · intro g hg pl hpl l hl b hb
+          exact collFor_lists t path sel g hg pl hpl l hl b hb
+        · intro n hn'; simp [Out.init, known] at hn'
+        · intro n b hnb x hx
+          have : b = cx.coll.macroOf n := by rw [← hmo n, hnb]; rfl
+          exact hm n x (this ▸ hx)
+      exact hki a hk
+
+-- non-vacuity of `PathOk`, and both sides computed on a small tree (`x who=info` in info/attributes,
+-- `x who=sub` in `a/.gitattributes`, every pattern matching): info/attributes wins for `a/x`
+example : PathOk [97, 47, 120] := by decide
+
+example :
+    let who : Bytes := [119, 104, 111]
+    let pat : Pat := ⟨[120], false, false, false, true, false, none⟩
+    let t : PTree := { globals := [], info := some [⟨Kind.pattern pat, [⟨who, St.value [105]⟩], 1⟩],
+                       dirs := fun d => if d = [97] then some [⟨Kind.pattern pat, [⟨who, St.value [115]⟩], 1⟩] else none }
+    resolve ⟨fun _ _ _ _ => true⟩ t [97, 47, 120] false false [] who = some (St.value [105]) := by decide
+
+/-! ### from parsed lines to bytes
+
+`resolve_eq_git` quantifies over the *parsed* files. On bytes, gitoxide's parser is `C38.parseFile`
+and git's is `Spec.C38.parseFileC`; both are tied to their originals by the harness only. The
+property on bytes follows whenever the two parsers agree on the files in play. -/
+
+/-- attribute files as bytes -/
+structure Files where
+  globals : List Bytes
+  info : Option Bytes
+  dirs : Bytes → Option Bytes
+
+def Files.parsed (parse : Bytes → PFile) (fs : Files) : PTree :=
+  { globals := fs.globals.map parse, info := fs.info.map parse, dirs := fun d => (fs.dirs d).map parse }
+
+/-- the two parsers read every file in play the same way -/
+def ParsersAgree (fs : Files) : Prop :=
+  (∀ b ∈ fs.globals, parseFileC true b = parseFile b) ∧ (∀ b, fs.info = some b → parseFileC true b = parseFile b)
+    ∧ (∀ d b, fs.dirs d = some b → parseFileC true b = parseFile b)
+
+/-- The full statement on bytes (NOT proved: it needs `ParsersAgree` for all files without NUL bytes and
+without malformed quoted patterns; see `resolve_eq_git_bytes_partial` and the level note). -/
+def C38_full : Prop :=
+  ∀ (env : Env) (fs : Files) (path : Bytes) (isDir icase : Bool) (sel : List Bytes) (a : Bytes),
+    PathOk path → (sel = [] ∨ a ∈ sel) →
+    resolve env (fs.parsed parseFile) path isDir icase sel a
+      = some (gitValue (gitCollect env (fs.parsed (parseFileC true)) (gitPath path isDir) icase) a)
+
+theorem resolve_eq_git_bytes_partial (env : Env) (fs : Files) (path : Bytes) (isDir icase : Bool) (sel : List Bytes)
+    (a : Bytes) (hp : PathOk path) (ha : sel = [] ∨ a ∈ sel) (hparse : ParsersAgree fs) :
+    resolve env (fs.parsed parseFile) path isDir icase sel a
+      = some (gitValue (gitCollect env (fs.parsed (parseFileC true)) (gitPath path isDir) icase) a) := by
+  have : fs.parsed (parseFileC true) = fs.parsed parseFile := by
+    obtain ⟨hg, hi, hd⟩ := hparse
+    unfold Files.parsed
+    congr 1
+    · exact List.map_congr_left hg
+    · cases hinfo : fs.info with
+      | none => rfl
+      | some b => simp [hi b hinfo]
+    · funext d
+      cases hdir : fs.dirs d with
+      | none => rfl
+      | some b => simp [hd d b hdir]
+  rw [this]
+  exact resolve_eq_git env _ path isDir icase sel a hp ha
+
+-- non-vacuity of `ParsersAgree`: a file with a macro, a quoted pattern, all four states, CRLF
+example :
+    let f : Bytes := [91, 97, 116, 116, 114, 93, 109, 32, 97, 32, 45, 98, 13, 10,   -- "[attr]m a -b\r\n"
+                      34, 113, 32, 112, 34, 9, 109, 32, 33, 99, 32, 100, 61, 49, 10]  -- "\"q p\"\tm !c d=1\n"
+    parseFileC true f = parseFile f ∧ (parseFile f).length = 2 := by decide +kernel
+
+/-- **unspecified_vs_unset**: "unspecified because of `!a`" is a decision like "unset because of
+`-a`" — once an attribute has either state, nothing of lower precedence (later lines, shallower
+directories, global files, macro bodies) changes it — while an attribute nobody mentioned is
+merely without a slot; and the two reported states differ. -/
+theorem unspecified_vs_unset (env : Env) (cx : Ctx) (path : Bytes) (isDir icase : Bool)
+    (groups : List (List PList)) (o o' : Out) (h : groupsLoop env cx path isDir icase groups o = some o') (n : Bytes) :
+    (o.isFilled n = true → o'.get n = o.get n) ∧
+    (¬ o.isFilled n = true → (o.fill cx ⟨n, St.unspecified⟩).isFilled n = true
+        ∧ (o.fill cx ⟨n, St.unspecified⟩).get n = St.unspecified
+        ∧ (o.fill cx ⟨n, St.unset⟩).get n = St.unset) ∧
+    St.unset ≠ St.unspecified := by
+  refine ⟨?_, ?_, by decide⟩
+  · intro hf
+    have hext := groupsLoop_ext env cx path isDir icase groups o o' h
+    unfold Out.get
+    rw [hext.lookup_eq n hf]
+  · intro _
+    refine ⟨?_, ?_, ?_⟩
+    · rw [fill_isFilled]; simp
+    · unfold Out.get; rw [fill_filled]; simp
+    · unfold Out.get; rw [fill_filled]; simp
 
 end GixModel.Props.C38
